@@ -157,10 +157,11 @@ const (
 	opAlias
 	opRangeIns
 	opRangeNest
+	opRangeDelOther
 	nOps
 )
 
-var opNames = []string{"put", "get", "get1", "del", "len", "range", "rangedel", "fresh", "alias", "range-with-insert", "nested-range"}
+var opNames = []string{"put", "get", "get1", "del", "len", "range", "rangedel", "fresh", "alias", "range-with-insert", "nested-range", "range-with-delete-of-other-keys"}
 
 type op struct {
 	kind, slot, key, val int
@@ -177,7 +178,7 @@ type sample struct {
 func (s *sample) LogLines() []string { return s.Log }
 
 func genHistory(t *tape.Tape, tier string) ([]op, int) {
-	withRangeDel := t.Draw(8) == 7 // only some runs mutate the map while walking it
+	withRangeDel := t.Draw(3) != 0 // most runs also mutate the map while walking it
 	pool := []int{4, 2, 16, 200, 2000}[t.Draw(5)]
 	maxOps := 400
 	if tier == "thorough" {
@@ -240,6 +241,9 @@ func genHistory(t *tape.Tape, tier string) ([]op, int) {
 				o.kind = opRange
 				if withRangeDel {
 					o.kind = opRangeDel
+					if val%2 == 1 {
+						o.kind = opRangeDelOther
+					}
 				}
 			case kd < 93:
 				o.kind = opFresh
@@ -297,7 +301,13 @@ func (e *Engine) execute(d *driver, ops []op, pool int, mode allocsim.Mode, t *t
 	for i := range model {
 		model[i] = map[int]int{}
 	}
-	checkRange := func(m map[int]int, o op, expectCount int, name string) *outcome {
+	// boundedSkip is the suffix of the operation name in the signature of the one
+	// listed finding (known_findings.json): while a loop deletes keys it has
+	// already visited, at most one other present key per such delete is skipped -
+	// and nothing else is wrong (no key twice, no key after its deletion, no stale
+	// value, length right). Anything beyond that keeps the plain name.
+	const boundedSkip = "[only skips, at most one per delete]"
+	checkRange := func(m map[int]int, o op, expectCount int, name string, deletedByLoop func(k int) bool) *outcome {
 		cnt, oc := call("rget", 0)
 		if oc != nil {
 			return oc
@@ -320,11 +330,22 @@ func (e *Engine) execute(d *driver, ops []op, pool int, mode allocsim.Mode, t *t
 		if int(int64(cnt)) != expectCount || int64(ks) != eks {
 			// which keys?
 			var missing, extra []int
-			for k := range m {
+			var visKs, visVs int64
+			deletes := 0
+			for k, v := range m {
 				s, _ := call("seenAt", uint64(k))
 				if s == 0 {
 					missing = append(missing, k)
+				} else {
+					visKs += int64(k+1) * 1000003
+					visVs += hval(vk, v) * int64(k+1)
+					if deletedByLoop != nil && deletedByLoop(k) {
+						deletes++
+					}
 				}
+			}
+			if deletedByLoop != nil && len(missing) > 0 && len(missing) <= deletes && int(int64(cnt)) == expectCount-len(missing) && int64(ks) == visKs && int64(vs) == visVs {
+				name += boundedSkip
 			}
 			sort.Ints(missing)
 			if len(missing) > 8 {
@@ -409,7 +430,7 @@ func (e *Engine) execute(d *driver, ops []op, pool int, mode allocsim.Mode, t *t
 			if _, oc := call("rng", uint64(o.slot)); oc != nil {
 				return oc, host, ""
 			}
-			if oc := checkRange(m, o, len(m), "range"); oc != nil {
+			if oc := checkRange(m, o, len(m), "range", nil); oc != nil {
 				oc.detail = fmt.Sprintf("op %d %s", i, oc.detail)
 				return oc, host, ""
 			}
@@ -422,7 +443,7 @@ func (e *Engine) execute(d *driver, ops []op, pool int, mode allocsim.Mode, t *t
 			}
 			// only the current key is deleted while walking: every key present at the
 			// start must still be visited exactly once, with its value
-			if oc := checkRange(m, o, len(m), "range-with-delete-of-current-key"); oc != nil {
+			if oc := checkRange(m, o, len(m), "range-with-delete-of-current-key", func(k int) bool { return k%mod == rem }); oc != nil {
 				oc.detail = fmt.Sprintf("op %d %s", i, oc.detail)
 				return oc, host, ""
 			}
@@ -432,6 +453,73 @@ func (e *Engine) execute(d *driver, ops []op, pool int, mode allocsim.Mode, t *t
 				}
 			}
 			res.Probes["range_with_delete"]++
+		case opRangeDelOther:
+			mod := 1 + o.val%3
+			rem := o.key % mod
+			shift := o.val / 3 % 9 // 0: the key being visited itself
+			if shift > 0 && o.val%5 == 0 {
+				shift = pool - shift // a key that lies before the visited one in index order
+				if shift <= 0 {
+					shift = 1
+				}
+			}
+			before := map[int]int{}
+			for k, v := range m {
+				before[k] = v
+			}
+			if _, oc := call("rngdelo", uint64(o.slot), uint64(mod), uint64(rem), uint64(shift), uint64(pool)); oc != nil {
+				return oc, host, ""
+			}
+			dup, _ := call("rget", 3)
+			bad, _ := call("rget", 4)
+			if int64(dup) != 0 || int64(bad) != 0 {
+				return &outcome{"range_mismatch", fmt.Sprintf("op %d range-with-delete-of-other-keys(slot %d, every key with index%%%d==%d deletes index+%d): %d key(s) visited twice, %d key(s) visited after they had been deleted (or never inserted)", i, o.slot, mod, rem, shift, int64(dup), int64(bad)), name}, host, ""
+			}
+			// a key present at the start and not deleted by the loop is visited exactly
+			// once; one the loop deleted is visited at most once (and not after its
+			// deletion: counted by the driver above)
+			var vsum int64
+			var skipped []int
+			deletes := 0
+			for k, v := range before {
+				sn, _ := call("seenAt", uint64(k))
+				g, _ := call("goneAt", uint64(k))
+				if sn > 1 {
+					return &outcome{"range_mismatch", fmt.Sprintf("op %d range-with-delete-of-other-keys(slot %d): key %d was visited %d times", i, o.slot, k, sn), name}, host, ""
+				}
+				if g == 0 && sn != 1 {
+					skipped = append(skipped, k)
+				}
+				if sn == 1 {
+					vsum += hval(vk, v) * int64(k+1)
+				}
+				if g != 0 {
+					delete(m, k)
+					deletes++
+				}
+			}
+			if got, _ := call("rget", 2); int64(got) != vsum {
+				return &outcome{"range_mismatch", fmt.Sprintf("op %d range-with-delete-of-other-keys(slot %d): value checksum %d, expected %d: a key was visited with a value that is not its current one", i, o.slot, int64(got), vsum), name}, host, ""
+			}
+			ln, oc := call("length", uint64(o.slot))
+			if oc != nil {
+				return oc, host, ""
+			}
+			if int(int32(ln)) != len(m) {
+				return &outcome{"len_mismatch", fmt.Sprintf("op %d after range-with-delete-of-other-keys(slot %d): len %d, model %d", i, o.slot, int32(ln), len(m)), name}, host, ""
+			}
+			if len(skipped) > 0 {
+				sort.Ints(skipped)
+				nm := name
+				if len(skipped) <= deletes {
+					nm += boundedSkip
+				}
+				if len(skipped) > 8 {
+					skipped = skipped[:8]
+				}
+				return &outcome{"range_mismatch", fmt.Sprintf("op %d range-with-delete-of-other-keys(slot %d, every key with index%%%d==%d deletes index+%d): the loop deleted %d present keys; present at the start, never deleted, and not visited: %v", i, o.slot, mod, rem, shift, deletes, skipped), nm}, host, ""
+			}
+			res.Probes["range_with_delete_of_other_keys"]++
 		case opRangeNest:
 			if len(m) > 60 {
 				break // quadratic
